@@ -812,7 +812,14 @@ impl AssignStatement {
     }
 
     pub fn gather_ff(&self, context: &mut Context, table: &mut FfTable, decl: usize) {
-        let assign_target = compute_assign_target(self.dst.first(), context);
+        // A concatenated left-hand side writes several targets from ONE evaluation of the
+        // right-hand side: a read of any of them is not a harmless self-reference of "the"
+        // target, so no target is named and every read keeps its register.
+        let assign_target = if self.dst.len() == 1 {
+            compute_assign_target(self.dst.first(), context)
+        } else {
+            None
+        };
         self.expr
             .gather_ff(context, table, decl, assign_target.as_ref(), true);
         for dst in &self.dst {
@@ -821,7 +828,11 @@ impl AssignStatement {
     }
 
     pub fn gather_ff_comb_assign(&self, context: &mut Context, table: &mut FfTable, decl: usize) {
-        let assign_target = compute_assign_target(self.dst.first(), context);
+        let assign_target = if self.dst.len() == 1 {
+            compute_assign_target(self.dst.first(), context)
+        } else {
+            None
+        };
         self.expr
             .gather_ff(context, table, decl, assign_target.as_ref(), false);
         for dst in &self.dst {
